@@ -124,6 +124,75 @@ def memload_unit(prefix, sb_present, si_present):
     return unit
 
 
+def memload_views_unit(prefix):
+    """P: is_memload when a register operand W was written since the store (views written so far, kept in the change table):
+    if W is another view of the load's base (resp. index) register - aliasing per the C12 contract, different name - the
+    address is not provably the same and the load is not linked; otherwise the result is the one of the plain comparison."""
+    def unit(res):
+        ex = eng()
+        pf = prefix or ""
+        full = lambda n: pf + n
+        alias_b, alias_i = z3.Bools("w_aliases_base w_aliases_index")
+        for lb_present, li_present, cb, ci in itertools.product((False, True), (False, True), ("absent", "tracked"), ("absent", "tracked")):
+            if (not lb_present and cb != "absent") or (not li_present and ci != "absent") or not (lb_present or li_present):
+                continue
+            sb, si, wn = BStr.fresh("sb", 1), BStr.fresh("si", 1), BStr.fresh("wn", 1)
+            ob, oi = BStr.fresh("ob", 2), BStr.fresh("oi", 2)
+            so, lo, vb, vi, sc = z3.Ints("so lo vb vi sc")
+            pre_c = [x.wf() for x in (sb, si, wn, ob, oi)] + [sb.is_one_of(NAMES), si.is_one_of(NAMES), wn.is_one_of(NAMES + ["e"]),
+                                                             ob.is_one_of([full(n) for n in NAMES]), oi.is_one_of([full(n) for n in NAMES]), sc >= 1]
+
+            def run():
+                R = lambda nm: ex.instantiate("RegisterOperand", kw=dict(name=nm, prefix=prefix))
+                imm = lambda v: ex.instantiate("ImmediateOperand", kw=dict(value=v))
+                mem = ex.instantiate("MemoryOperand", kw=dict(offset=imm(SNum(so, True)), base=R(sb) if lb_present else None, index=R(si) if li_present else None, scale=SNum(sc, True)))
+                la, lbx = R("a"), R("b")
+                src = ex.instantiate("MemoryOperand", kw=dict(offset=imm(SNum(lo, True)), base=la if lb_present else None, index=lbx if li_present else None, scale=SNum(sc, True)))
+                W = R(wn)
+                changes = {"": [W]}
+                if cb == "tracked":
+                    changes[full("a")] = {"name": ob, "value": SNum(vb, True)}
+                if ci == "tracked":
+                    changes[full("b")] = {"name": oi, "value": SNum(vi, True)}
+
+                def dep(ex_, so_, a, kw):
+                    if a[1] is not W or a[0] not in (la, lbx):
+                        ex_.oblige("is_reg_dependend_of/asked-for-(address register, written operand)", False)
+                    return SBool(alias_b if a[0] is la else alias_i)
+
+                ex.abstract["is_reg_dependend_of"] = dep
+                iform = ex.instantiate("InstructionForm", kw=dict(mnemonic="ld", operands=[]))
+                iform.fields["_semantic_operands"] = {"source": [src], "destination": [R("c")], "src_dst": []}
+                return ex.call_method("KernelDG", "is_memload", SObj("KernelDG", parser=SObj("Parser")), [mem, iform, changes])
+
+            paths = ex.explore(run, pre_c)
+
+            def post(v, p):
+                conds, delta = [], lo - so
+                if lb_present:
+                    conds.append(z3.Not(z3.And(alias_b, z3.Not(bstr_eq(bstr_concat(pf, wn), full("a"))))))
+                    if cb == "tracked":
+                        conds.append(bstr_eq(bstr_concat(pf, sb), ob))
+                        delta = delta + vb
+                    else:
+                        conds.append(bstr_eq(sb, "a"))
+                if li_present:
+                    conds.append(z3.Not(z3.And(alias_i, z3.Not(bstr_eq(bstr_concat(pf, wn), full("b"))))))
+                    if ci == "tracked":
+                        conds.append(bstr_eq(bstr_concat(pf, si), oi))
+                        delta = delta + vi * sc
+                    else:
+                        conds.append(bstr_eq(si, "b"))
+                want = z3.And(conds + [delta == 0])
+                got = v.t if isinstance(v, SBool) else z3.BoolVal(bool(v))
+                return got == want
+
+            res.add_paths(paths, post, kind=f"lb{int(lb_present)}li{int(li_present)}{cb[0]}{ci[0]}")
+        return res
+
+    return unit
+
+
 def memstore_unit(res):
     ex = eng()
     for prefix in (None, "x"):
@@ -168,14 +237,16 @@ def memstore_unit(res):
 
 def update_changes_unit(res):
     """_update_reg_changes: state per register in {untracked, unknown(None), (origin, delta)}; a constant change adds to
-    delta, a copy takes the source's delta (+ its own constant) and records the source as origin, an unknown change
-    or an unknown source makes the register unknown; registers not mentioned are untouched."""
+    delta, a copy takes the source's delta (+ its own constant) and the source's ORIGIN (copy chains), an unknown change
+    or an unknown source makes the register unknown; registers not mentioned are untouched; the register operands the
+    instruction writes are recorded (views written so far) in the pre-access pass."""
     ex = eng()
     ex.load(REPO + "/" + ISA)
     for st_a, st_b, ch, post_pass in itertools.product(("absent", "unknown", "tracked"), ("absent", "unknown", "tracked"),
                                                        ("none", "unknown", "const", "copy_b", "copy_c"), (False, True)):
         va, vb, dv = z3.Ints("va vb dv")
         oa = BStr.fresh("oa", 1)
+        ob = BStr.fresh("ob", 1)
 
         def run():
             state = {}
@@ -186,32 +257,43 @@ def update_changes_unit(res):
             if st_b == "unknown":
                 state["b"] = None
             elif st_b == "tracked":
-                state["b"] = {"name": "b", "value": SNum(vb, True)}
+                state["b"] = {"name": ob, "value": SNum(vb, True)}
             change = {"none": {}, "unknown": {"a": None}, "const": {"a": {"name": "a", "value": SNum(dv, True)}},
                       "copy_b": {"a": {"name": "b", "value": SNum(dv, True)}}, "copy_c": {"a": {"name": "c", "value": SNum(dv, True)}}}[ch]
             sem = SObj("ArchSemantics")
-            iform = SObj("InstructionForm")
+            written = [SObj("RegisterOperand", tag="w0"), SObj("RegisterOperand", tag="w1")]
+            other = SObj("MemoryOperand")
+            iform = SObj("InstructionForm", _semantic_operands={"source": [SObj("RegisterOperand", tag="s")], "destination": [written[0], other], "src_dst": [written[1]]})
+            prev_views = [SObj("RegisterOperand", tag="earlier")]
+            state[""] = list(prev_views)
             seen = []
             ex.abstract["get_reg_changes"] = lambda ex_, so, a, kw: seen.append((a, kw)) or change
             ex.extra["state_b_before"] = state.get("b", "ABSENT")
             out = ex.call_method("KernelDG", "_update_reg_changes", SObj("KernelDG", arch_sem=sem), [iform, state] + ([True] if post_pass else []))
             ex.extra["same"] = out is state
+            ex.extra["views"] = (prev_views, written)
             # the changes asked for are those of this instruction and of the requested pass
             ex.extra["asked"] = len(seen) == 1 and seen[0][0][0] is iform and bool((seen[0][0][1:] or [seen[0][1].get("only_postindexed", False)])[0]) == post_pass
             return out
 
-        paths = ex.explore(run, [oa.wf(), oa.is_one_of(NAMES)])
+        paths = ex.explore(run, [oa.wf(), oa.is_one_of(NAMES), ob.wf(), ob.is_one_of(NAMES)])
 
         def post(v, p):
             if not isinstance(v, dict) or not p.extra["same"]:
                 return False
             g = [z3.BoolVal(bool(p.extra["asked"]))]
+            # the written register operands (destination and read-modify-write) are appended to the list of views written so
+            # far - in the pre-access pass only -; nothing is removed from it
+            prev_views, written = p.extra["views"]
+            views = v.get("")
+            want_views = prev_views + ([] if post_pass else written)
+            g.append(z3.BoolVal(isinstance(views, list) and len(views) == len(want_views) and all(a is b for a, b in zip(views, want_views))))
             # b is never touched: same entry, same contents, and not shared with a's entry
             vb_now = v.get("b", "ABSENT")
             g.append(z3.BoolVal(vb_now is p.extra["state_b_before"]))
             a = v.get("a", "ABSENT")
             if isinstance(vb_now, dict):
-                g.append(z3.BoolVal(a is not vb_now and set(vb_now) == {"name", "value"} and vb_now["name"] == "b"))
+                g.append(z3.BoolVal(a is not vb_now and set(vb_now) == {"name", "value"} and vb_now["name"] is ob))
                 g.append(real_term(vb_now["value"]) == z3.ToReal(vb))
             if ch == "none":
                 g.append(z3.BoolVal((a == "ABSENT") == (st_a == "absent")))
@@ -235,7 +317,8 @@ def update_changes_unit(res):
                 return False
             sv = vb if src_state == "tracked" else z3.IntVal(0)
             g.append(real_term(a["value"]) == z3.ToReal(sv + dv))
-            g.append(ex.eq_term(a["name"], src))
+            # the origin is the register the SOURCE started from (a copy of a copy), the source itself if it is untracked
+            g.append(ex.eq_term(a["name"], ob if (src == "b" and src_state == "tracked") else src))
             return z3.And(g)
 
         res.add_paths(paths, post, kind=f"{st_a}/{st_b}/{ch}/post={int(post_pass)}")
@@ -249,8 +332,11 @@ def units(tier):
             for si in (False, True):
                 us.append(Unit(f"C06/is_memload/prefix={prefix}/storebase={int(sb)}/storeindex={int(si)}", memload_unit(prefix, sb, si), "P",
                                [(KDG, "KernelDG.is_memload"), (KDG, "KernelDG._displacement")], timeout=900))
-    from .c03 import create_dg_unit, find_depending_unit
+    from .c03 import create_dg_unit, find_depending_unit, has_pre_indexed_unit
+    for prefix in (None, "x"):
+        us.append(Unit(f"C06/is_memload/other-view-written/prefix={prefix}", memload_views_unit(prefix), "P", [(KDG, "KernelDG.is_memload"), (KDG, "KernelDG._changed_through_other_view")], timeout=900))
     us += [
+        Unit("C06/_has_pre_indexed_access", has_pre_indexed_unit, "P", [(KDG, "KernelDG._has_pre_indexed_access")]),
         Unit("C06/find_depending(memory branch)", find_depending_unit, "P", [(KDG, "KernelDG.find_depending")]),
         Unit("C06/create_DG(edge weights)", create_dg_unit, "P", [(KDG, "KernelDG.create_DG")]),
         Unit("C06/is_memstore", memstore_unit, "P", [(KDG, "KernelDG.is_memstore"), ("osaca/parser/memory.py", "MemoryOperand.__eq__"),
